@@ -7,6 +7,8 @@ import sys
 import time
 
 ROOT = os.path.dirname(os.path.dirname(os.path.abspath(__file__)))
+# development only (seeded-change runs): write evidence and replay files elsewhere so that /verif/evidence always comes from /repo
+SCRATCH = os.environ.get('VERIF_SCRATCH') or ROOT
 
 
 def load_known(pid):
@@ -33,7 +35,7 @@ class Run(object):
         self.known_hits = []
         self.broken = []
         self.known = load_known(pid)
-        self.outdir = os.path.join(ROOT, 'out', pid)
+        self.outdir = os.path.join(SCRATCH, 'out', pid)
         os.makedirs(self.outdir, exist_ok=True)
         for f in os.listdir(self.outdir):
             if f.endswith('.json'):
@@ -78,8 +80,8 @@ class Run(object):
             'coverage': coverage, 'assumptions': assumptions, 'wall_s': round(wall, 2),
             'violations': len(self.violations),
         }
-        os.makedirs(os.path.join(ROOT, 'evidence'), exist_ok=True)
-        with open(os.path.join(ROOT, 'evidence', self.pid + '.json'), 'w') as f:
+        os.makedirs(os.path.join(SCRATCH, 'evidence'), exist_ok=True)
+        with open(os.path.join(SCRATCH, 'evidence', self.pid + '.json'), 'w') as f:
             json.dump(ev, f, indent=1, default=str)
         if self.broken:
             for b in self.broken[:20]:
